@@ -17,6 +17,7 @@ mod c16;
 mod rsp;
 mod sparql;
 mod seedreg;
+mod lineage;
 
 fn main() {
     let argv: Vec<String> = std::env::args().collect();
@@ -44,6 +45,7 @@ fn main() {
         "c18" => c18::main(&a),
         "c19" => c19::main(&a),
         "seedreg" => seedreg::main(&a),
+        "lineage" => lineage::main(&a),
         other => {
             eprintln!("unknown driver {other}");
             std::process::exit(2);
